@@ -525,3 +525,89 @@ func ruleOU7(c *Ctx) {
 	})
 	c.check(reQ, fn, "requeue-on-zero", c.FnPos(ts), "an element is queued when its in-degree drops to 0", "no element is re-queued when its in-degree reaches 0")
 }
+
+// ------------------------------------------------------------------ OU8
+
+func init() {
+	register(&Rule{ID: "OU8", Min: 2, Run: ruleOU8,
+		Doc: "truncation-decided-by-display-width: the row-shortening helpers (truncateToWidth, abbreviate) return their input unshortened only on a branch that compared its *display width* (visibleLen / runewidth) with the budget; a byte-length or rune-count test lets wide characters through and the row overflows the terminal"})
+}
+
+func ruleOU8(c *Ctx) {
+	n := 0
+	for _, name := range []string{"truncateToWidth", "abbreviate"} {
+		f := c.ErgoFn(name)
+		if f == nil {
+			continue
+		}
+		var sp *ssa.Parameter
+		for _, prm := range f.Params {
+			if prm.Type().String() == "string" {
+				sp = prm
+				break
+			}
+		}
+		if sp == nil {
+			continue
+		}
+		isWidthCall := func(v ssa.Value) bool {
+			cl, _ := callOf(v)
+			if cl == nil {
+				return false
+			}
+			nm := calleeFullName(&cl.Call)
+			if cal := cl.Call.StaticCallee(); cal != nil && cal.Name() == "visibleLen" {
+				return true
+			}
+			return strings.Contains(nm, "runewidth.")
+		}
+		k := 0
+		for _, r := range returnsOf(f) {
+			if len(r.Results) != 1 || resolve(r.Results[0]) != ssa.Value(sp) {
+				continue
+			}
+			k++
+			n++
+			blk := r.Block()
+			// every way into this return must have passed a display-width comparison
+			check := func(target *ssa.BasicBlock, extra *edge) bool {
+				for _, bf := range branchFacts(f) {
+					if bf.A.Kind != "cmp" || !(isWidthCall(bf.A.X) || isWidthCall(bf.A.Y)) {
+						continue
+					}
+					if extra != nil && bf.E == *extra {
+						return true
+					}
+					if mustPassEdges(f, target, map[edge]bool{bf.E: true}) {
+						return true
+					}
+				}
+				return false
+			}
+			ok := true
+			if len(blk.Preds) > 1 {
+				for _, pred := range blk.Preds {
+					found := false
+					for i, s := range pred.Succs {
+						if s == blk {
+							e := edge{pred, i}
+							if check(pred, &e) {
+								found = true
+							}
+						}
+					}
+					if !found {
+						ok = false
+					}
+				}
+			} else {
+				ok = check(blk, nil)
+			}
+			c.check(ok, c.Name(f), fmt.Sprintf("returns-input-unshortened#%d", k), c.Pos(r.Pos()), "input is returned unshortened only after a display-width comparison",
+				"the input can be returned unshortened on a path that did not compare its display width with the budget (byte/rune count instead): wide characters overflow the row")
+		}
+	}
+	if n == 0 {
+		c.bad("<renderers>", "truncation-helpers", "-", "no truncation helper returning its input found")
+	}
+}
